@@ -239,16 +239,16 @@ def classify(spec, hist, i, a_long, a_fresh):
         created = M in st['created_at'] and any(r < st['created_at'][M] for r in st['reqs'])
         paths = G.all_paths(spec, F, M)
         paths.sort(key=lambda p: (not consistent(p), len(p)))
-        for p in paths:
-            importers = [x for x, _ in p[1:-1]]
-            if created:
-                t = st['created_at'][M]
-                held = [x for x in importers if st['lm'][x] < t and any(st['lm'][x] < r < t for r in st['reqs'])]
+        if created:
+            t = st['created_at'][M]
+            for p in paths:
+                held = [x for x, _ in p[1:-1] if st['lm'][x] < t and any(st['lm'][x] < r < t for r in st['reqs'])]
                 if held:
                     star = '-star' if p[-1][1] == 'star' else ''
                     return ('created-after-failed-lookup%s-dist%d' % (star, len(p) - 1), True,
                             {'path': [[x, k] for x, k in p], 'importers_not_modified_since': held})
-            held = [x for x in importers if st['lm'][x] < tM]
+        for p in paths:
+            held = [x for x, _ in p[1:-1] if st['lm'][x] < tM]
             if held:
                 kind = 'star' if p[-1][1] == 'star' else 'indirect'
                 return ('stale-%s-import-dist%d' % (kind, len(p) - 1), True,
@@ -257,10 +257,30 @@ def classify(spec, hist, i, a_long, a_fresh):
             return ('created-module-unseen-dist1' if created else 'stale-direct-import-dist1'), False, {}
         return 'stale-though-importers-modified-dist%d' % dist[M], False, {}
 
+    # what the long-lived answer shows that the fresh one does not (for lint an 'Undefined name' row is the
+    # absence of that name, so the sides are swapped): nothing -> the long-lived project only LACKS things
+    def shows(side_only, other_only):
+        out = set()
+        for a, o in side_only:
+            if o and not (probe['kind'] == 'lint' and '"E02"' in a):
+                out.add(o)
+        for a, o in other_only:
+            if o and probe['kind'] == 'lint' and '"E02"' in a:
+                out.add(o)
+        return out
+    long_shows = shows(al - af, af - al)
+    info['evidence'] = 'long-lived shows outdated items of %s' % sorted(long_shows) if long_shows else 'long-lived only lacks items'
     # prefer a candidate whose staleness is explained by an importer that was not modified after it
-    # (the importer's cached analysis); only if there is none, blame the nearest candidate
+    # (the importer's cached analysis); when the long-lived answer merely lacks things and a module was
+    # created after a failed lookup, that explanation comes first; if nothing is explained, blame the nearest
     explained = [(m,) + explain(m) for m in cands]
-    pick = next((e for e in explained if e[2]), explained[0])
+    pick = None
+    if not long_shows:
+        pick = next((e for e in explained if e[2] and e[1].startswith('created-')), None)
+    if pick is None:
+        pick = next((e for e in explained if e[2] and (e[0] in long_shows or not long_shows)), None)
+    if pick is None:
+        pick = next((e for e in explained if e[2]), explained[0])
     M, label, _, extra = pick
     info['culprit'] = M
     info['culprit_ops'] = st['ops'].get(M)
@@ -421,7 +441,7 @@ def work_random(arg):
         for m in spec['modules'].values():
             for e in m['edges']:
                 part.hist('random_project_edge_kinds', e['kind'] + ('(relative)' if e.get('rel') and m['pkg'] and m['pkg'] == spec['modules'][e['to']]['pkg'] else ''))
-        depth = max(G.distances(spec, x).values() and max(G.distances(spec, x).values()) for x in spec['modules'] if spec['modules'][x]['main'])
+        depth = max(max(G.distances(spec, x).values()) for x in spec['modules'] if spec['modules'][x]['main'])
         part.hist('random_project_chain_length', depth + 1)
         nt = run_history(spec, hist, part, 'all', key, seen, selfcheck=(idx % 8 == 0))
         part.case(key, nontrivial=nt)
